@@ -16,12 +16,15 @@ def main():
     ids = [a for a in sys.argv[1:] if not a.startswith('--')]
     props = sorted(f[:-3] for f in os.listdir(os.path.join(VERIF, 'sa', 'props')) if f.startswith('C') and f.endswith('.py'))
     # baseline: violation lines of every check on the unmodified tree (pending findings must not count as "caught")
+    import concurrent.futures as cf
     baseline = {}
-    for p in props:
+
+    def base(p):
         rc, out = sh('./check %s --no-evidence --quiet --tier %s --scratch /tmp' % (p, tier), cwd=VERIF)
-        baseline[p] = {l.strip().split(' — ')[0].split(' ', 2)[-1] for l in out.splitlines() if l.startswith('  ') and ' — ' in l}
-        if rc == 2:
-            baseline[p] = None
+        return p, (None if rc == 2 else {l.strip().split(' — ')[0].split(' ', 2)[-1] for l in out.splitlines() if l.startswith('  ') and ' — ' in l})
+    with cf.ThreadPoolExecutor(max_workers=12) as ex:
+        for p, b in ex.map(base, props):
+            baseline[p] = b
     for sid in ids:
         d = os.path.join(VERIF, 'seeded', sid)
         meta = json.load(open(os.path.join(d, 'meta.json')))
@@ -40,8 +43,11 @@ def main():
             continue
         caught = {}
         try:
-            for p in props:
-                rc, out = sh('./check %s --no-evidence --quiet --tier %s --scratch /tmp --repo %s' % (p, tier, scratch), cwd=VERIF)
+            def one(p):
+                return p, sh('./check %s --no-evidence --quiet --tier %s --scratch %s --repo %s' % (p, tier, scratch, scratch), cwd=VERIF)
+            with cf.ThreadPoolExecutor(max_workers=12) as ex:
+                results = list(ex.map(one, props))
+            for p, (rc, out) in results:
                 lines = [l for l in out.splitlines() if l.startswith('  ') and ' — ' in l]
                 if baseline.get(p) is None:
                     continue
